@@ -2,7 +2,10 @@ package main
 
 import (
 	"bytes"
+	"io"
 	"runtime/debug"
+
+	"github.com/klauspost/compress/s2"
 	"encoding/binary"
 	"errors"
 	"fmt"
@@ -516,6 +519,85 @@ func (c *coll) dump() string {
 	out = append(out, ss...)
 	out = append(out, "commits="+ranks(c.c.VerifCommits()))
 	return strings.Join(out, " ")
+}
+
+// stateHash: the bytes writeState hands to the compressor (the state section of a snapshot,
+// decompressed), with every chunk's last commit id replaced by its rank, hashed
+func (c *coll) stateHash() string {
+	var w countingWriter
+	w.markAt = -1
+	column.VerifSetYield(func(p string) {
+		if p == "s:closed" {
+			w.markAt = w.buf.Len()
+		}
+	})
+	err := c.c.Snapshot(&w)
+	column.VerifSetYield(nil)
+	if err != nil || w.markAt < 0 {
+		return "err"
+	}
+	plain, err := io.ReadAll(s2.NewReader(bytes.NewReader(w.buf.Bytes()[:w.markAt])))
+	if err != nil {
+		return "err"
+	}
+	// parse, replacing the ids by ranks
+	pos := 0
+	uv := func() uint64 {
+		v, n := binary.Uvarint(plain[pos:])
+		if n <= 0 {
+			panic("statehash: bad uvarint")
+		}
+		pos += n
+		return v
+	}
+	var out []byte
+	putUv := func(v uint64) {
+		var tmp [10]byte
+		n := binary.PutUvarint(tmp[:], v)
+		out = append(out, tmp[:n]...)
+	}
+	version, columns, chunks := uv(), uv(), uv()
+	putUv(version)
+	putUv(columns)
+	putUv(chunks)
+	type chunkPart struct {
+		id   uint64
+		rest []byte
+	}
+	var parts []chunkPart
+	for ch := uint64(0); ch < chunks; ch++ {
+		id := uv()
+		start := pos
+		for b := uint64(0); b < columns; b++ {
+			n := uv() // column name
+			pos += int(n)
+			pos += 4 // last
+			h := uv()
+			pos += int(h) * 12
+			n = uv()
+			pos += int(n)
+		}
+		parts = append(parts, chunkPart{id, plain[start:pos]})
+	}
+	var ids []uint64
+	for _, p := range parts {
+		ids = append(ids, p.id)
+	}
+	rk := strings.Split(ranks(ids), ",")
+	for i, p := range parts {
+		r, _ := strconv.ParseUint(rk[i], 10, 64)
+		putUv(r)
+		out = append(out, p.rest...)
+	}
+	if pos != len(plain) {
+		return fmt.Sprintf("err trailing=%d", len(plain)-pos)
+	}
+	h := uint64(14695981039346656037)
+	for _, b := range out {
+		h ^= uint64(b)
+		h *= 1099511628211
+	}
+	return fmt.Sprintf("state len=%d fnv=%d", len(out), h)
 }
 
 func (c *coll) trigDelta() string {
@@ -1469,6 +1551,8 @@ func (s *storeImpl) exec(toks []string) (out string) {
 		insertMarkers(c.c, offs...)
 		c.drain()
 		return "ok" + c.trigDelta()
+	case "statehash":
+		return c.stateHash()
 	case "dump":
 		return c.dump()
 	case "count":
